@@ -384,7 +384,7 @@ def concat(*collections):
     return itertools.chain(*collections)
 
 
-@specs.parameter('collection', utils.IteratorType)
+@specs.parameter('collection', yaqltypes.Iterator())
 @specs.name('len')
 @specs.extension_method
 def count_(collection):
@@ -1701,7 +1701,7 @@ def generate_many(engine, initial, producer, selector=None, decycle=False,
             yield item
         else:
             yield selector(item)
-        produced = producer(item)
+        produced = utils.limit_iterable(producer(item), engine)
         if depth_first:
             len_before = len(queue)
             queue.extend(produced)
